@@ -23,7 +23,8 @@ def opKnn (args : List String) : String :=
           | some (pts, _) =>
             let s := Knn.mkSpace true anchor width mcw pts.toArray
             let res := Knn.knn s k
-            "OK" ++ String.join (res.map fun l => String.join (l.map fun (_, i) => s!" {i}"))
+            -- run-time certificate of the grid (`KnnCorrect.gridOK_sound`): boxes contain their particles, cells partition them
+            (if Knn.gridOK s then "OK" else "GRIDBAD") ++ String.join (res.map fun l => String.join (l.map fun (_, i) => s!" {i}"))
           | none => "bad-op"
         | _, _ => "bad-op"
       | _ => "bad-op"
